@@ -20,6 +20,27 @@ Theorem data_plane_preserves_tables :
 Proof. exact on_packet_same. Qed.
 Print Assumptions data_plane_preserves_tables.
 
+(* the same including the nested dispatch of datagrams re-injected from a data message (on_packet_rec) *)
+Theorem data_plane_preserves_tables_nested :
+  forall (key nonce : Type) (enc : key -> dir -> nonce -> bytes -> bytes) (dec : key -> dir -> bytes -> option bytes)
+         (nd : node key) (src : addr) (pkt : bytes) (rnd : Z -> bytes) (ns : nat -> nonce)
+         (nd' : node key) (acts : list action),
+  on_packet_rec enc dec nd src pkt rnd ns = Ok (nd', acts) -> same_tables nd nd'.
+Proof. exact on_packet_rec_same. Qed.
+Print Assumptions data_plane_preserves_tables_nested.
+
+(* whatever bytes the cell dispatcher is handed, from whatever source address - in particular a datagram re-injected
+   from a data message, whose source is the OUTSIDE sender - the consumer is reached only through the data handler,
+   for one of our own circuits whose first hop has exactly that source address (ip and port) *)
+Theorem dispatcher_consumer_needs_first_hop_address :
+  forall (key nonce : Type) (enc : key -> dir -> nonce -> bytes -> bytes)
+         (nd : node key) (src : addr) (data : bytes) (cid : Z) (rnd : Z -> bytes) (ns : nat -> nonce)
+         (nd' : node key) (acts : list action) (a : action),
+  on_packet_from_circuit enc nd src data cid rnd ns = Ok (nd', acts) -> In a acts -> is_consumer a = true ->
+  exists cid' ci h0, assoc cid' (n_circuits nd) = Some ci /\ circuit_hop ci = Ok h0 /\ addr_eqb src (h_addr h0) = true.
+Proof. exact dispatcher_consumer_l. Qed.
+Print Assumptions dispatcher_consumer_needs_first_hop_address.
+
 (* unknown id: nothing at all happens (state identical, no output) *)
 Theorem unknown_id_is_noop :
   forall (key nonce : Type) (enc : key -> dir -> nonce -> bytes -> bytes) (dec : key -> dir -> bytes -> option bytes)
